@@ -32,6 +32,9 @@ Qed.
 Lemma nth_map' {A B} (f : A -> B) l d d' k : k < length l -> nth k (map f l) d' = f (nth k l d).
 Proof. intros. rewrite (nth_indep _ d' (f d)) by (now rewrite map_length). apply map_nth. Qed.
 
+Lemma nth_repeat_lt {A} (a d : A) m k : k < m -> nth k (repeat a m) d = a.
+Proof. revert k; induction m; intros [|k] H; simpl; auto; try lia. apply IHm. lia. Qed.
+
 Lemma np_index_ok n z : (- Z.of_nat n <= z < Z.of_nat n)%Z -> np_index n z = Ok (Z.to_nat (z mod Z.of_nat n)).
 Proof.
   intros H. unfold np_index. destruct (Z.leb_spec 0 z) as [H0|H0].
@@ -252,6 +255,16 @@ Lemma const_denote tiny root ns v idx : ns <> [] -> inb ns idx ->
   root_law tiny root (length ns) v -> sign_law tiny v ->
   get K (const_plain K tiny root ns v) idx = v.
 Proof. intros. rewrite const_plain_get by auto. now apply const_value. Qed.
+
+Lemma const_none tiny root ns v inz : ns <> [] ->
+  root_law tiny root (length ns) v -> sign_law tiny v ->
+  exists Y, const K tiny root ns v None inz = Ok Y /\ shp ns Y /\ forall idx, inb ns idx -> get K Y idx = v.
+Proof.
+  intros Hne HR HS. exists (const_plain K tiny root ns v). split; [|split].
+  - unfold const. destruct ns; [congruence|reflexivity].
+  - apply shp_const_plain.
+  - intros idx HI. now apply const_denote.
+Qed.
 
 (* ---------- the zeroing loop ---------- *)
 (* indices as the code receives them (Python ints), in range and non-negative *)
@@ -531,3 +544,18 @@ Proof.
   now rewrite E.
 Qed.
 End TensorsP.
+
+(* ---------- the sign law |v| * (|v| / v) = v holds over the rationals ---------- *)
+From Coq Require Import QArith Qcanon Field.
+Lemma Qc_ltb_lt a b : Qc_ltb a b = true <-> (a < b)%Qc.
+Proof. unfold Qc_ltb. rewrite Qclt_alt. destruct (a ?= b)%Qc; split; congruence. Qed.
+Lemma Qc_sign_law tiny v : (0 <= tiny)%Qc -> sign_law OQc tiny v.
+Proof.
+  intros Ht Hb. unfold big in Hb. cbn [oltb oabs OQc] in Hb. apply Qc_ltb_lt in Hb.
+  cbn [oabs odiv omul OQc].
+  assert (Hv : v <> 0%Qc).
+  { intros ->. assert (E : Qc_abs 0%Qc = 0%Qc) by reflexivity. change (Q2Qc 0) with 0%Qc in *. rewrite E in Hb.
+    apply (Qclt_not_le _ _ Hb Ht). }
+  unfold Qc_abs. destruct (Qc_ltb v (Q2Qc 0)); field; exact Hv.
+Qed.
+
